@@ -297,12 +297,18 @@ PROBES = [
     'm = items(dd) | map(p => t(p[0]))',
     'del dd[t("k")]',
     'nn | map(row => row | map(c => t(c)))',
+    'x = t(1)\nmissing_fn9(x)',
+    'xs | map(v => nofn9(t(v)))',
+    't({d}).nomethod9()',
+    'q = [t(1), t({d}) | nopipe9]',
+    'call(v => nofn9(v), t({d}))',
 ]
 SWALLOW = [
     'safe(v => t(v) + undefined_zz, {d})',
     'safe(v => xs | map(w => t(w) * v), {d})\nt(9)',
     'z = safe(k => fr2(k), {r})',
     'safe(v => t(1) / 0, 1) + "x"\nt({d})',
+    'safe(v => nofn9(t(v)), {d})\nt(2)',
 ]
 AST_BODIES = ['tmp = a + 1\nt(tmp)\ntmp * 2', 'n = a\nt(n)', 'ys = [a]\nys.push(t(a))\nys']
 
